@@ -319,7 +319,7 @@ class ExprMixin(object):
                             note="subscripted value is an object (not None)")
             st.assume(u.is_R(base.z))
             base = SV(base.z, "ref", cls=base.cls, elem=base.elem)
-        if base.cls in ("list", "tuple"):
+        if base.cls in ("list", "tuple", "dictkeys"):
             zi = self.as_int(idx)
             n = self.seq_len(st, base)
             if not self.in_spec:
@@ -508,6 +508,20 @@ class ExprMixin(object):
 
     def e_BoolOp(self, node, st, acc):
         is_and = isinstance(node.op, ast.And)
+        if self.in_spec:
+            # contract clauses are pure: no forking, plain connectives
+            vals = []
+            for v in node.values:
+                st, sv = self.eval(v, st, acc)
+                vals.append(sv)
+            if all(v.kind == "bool" for v in vals):
+                zs = [self.as_boolz(v) for v in vals]
+                return st, self.mk_bool(z3.And(zs) if is_and else z3.Or(zs))
+            cur = vals[-1]
+            for v in reversed(vals[:-1]):
+                t = self.truthy(v, st)
+                cur = self.merge_sv_pair(t if is_and else z3.Not(t), cur, v)
+            return st, cur
         st, cur = self.eval(node.values[0], st, acc)
         for nxt in node.values[1:]:
             t = self.truthy(cur, st)
@@ -539,6 +553,10 @@ class ExprMixin(object):
     def e_IfExp(self, node, st, acc):
         st, c = self.eval(node.test, st, acc)
         t = self.truthy(c, st)
+        if self.in_spec:
+            st, v1 = self.eval(node.body, st, acc)
+            st, v2 = self.eval(node.orelse, st, acc)
+            return st, self.merge_sv_pair(t, v1, v2)
         s1 = st.copy()
         s1.assume(t)
         s1, v1 = self.eval(node.body, s1, acc)
@@ -725,9 +743,10 @@ class ExprMixin(object):
         d = self.alloc(st, "dict", elem)
         r = self.as_ref(d)
         st.heap["$has"] = z3.Store(self.heap_array(st, "$has"), r, z3.K(u.Val, z3.BoolVal(False)))
-        st.heap["$len"] = z3.Store(self.heap_array(st, "$len"), r, z3.IntVal(0))
-        keys = self.new_list(st, [])
-        st.heap["$keys"] = z3.Store(self.heap_array(st, "$keys"), r, keys.z)
+        st.heap["$dlen"] = z3.Store(self.heap_array(st, "$dlen"), r, z3.IntVal(0))
+        st.heap["$klen"] = z3.Store(self.heap_array(st, "$klen"), r, z3.IntVal(0))
+        self.heap_array(st, "$kat")
+        self.heap_array(st, "$val")
         return d
 
     def new_set(self, st, items, elem=None):
@@ -742,7 +761,7 @@ class ExprMixin(object):
         n = u.fresh_int("setlen")
         st.assume(n >= (1 if items else 0))
         st.assume(n <= len(items))
-        st.heap["$len"] = z3.Store(self.heap_array(st, "$len"), r, n)
+        st.heap["$dlen"] = z3.Store(self.heap_array(st, "$dlen"), r, n)
         return s
 
     def dict_set(self, st, d, key, value):
@@ -753,13 +772,10 @@ class ExprMixin(object):
         vals = self.heap_array(st, "$val")[r]
         st.heap["$has"] = z3.Store(st.heap["$has"], r, z3.Store(has, key.z, z3.BoolVal(True)))
         st.heap["$val"] = z3.Store(st.heap["$val"], r, z3.Store(vals, key.z, value.z))
-        n = self.heap_array(st, "$len")[r]
-        st.heap["$len"] = z3.Store(st.heap["$len"], r, z3.If(had, n, n + 1))
-        # key order list
-        kz = self.heap_array(st, "$keys")[r]
-        klist = SV(kz, "ref", cls="list")
-        kr = u.r(kz)
-        kn = self.heap_array(st, "$len")[kr]
-        kel = self.heap_array(st, "$at")[kr]
-        st.heap["$at"] = z3.Store(st.heap["$at"], kr, z3.If(had, kel, z3.Store(kel, kn, key.z)))
-        st.heap["$len"] = z3.Store(st.heap["$len"], kr, z3.If(had, kn, kn + 1))
+        n = self.heap_array(st, "$dlen")[r]
+        st.heap["$dlen"] = z3.Store(st.heap["$dlen"], r, z3.If(had, n, n + 1))
+        # key order (insertion order)
+        kn = self.heap_array(st, "$klen")[r]
+        kel = self.heap_array(st, "$kat")[r]
+        st.heap["$kat"] = z3.Store(st.heap["$kat"], r, z3.If(had, kel, z3.Store(kel, kn, key.z)))
+        st.heap["$klen"] = z3.Store(st.heap["$klen"], r, z3.If(had, kn, kn + 1))
